@@ -21,9 +21,11 @@ type Case struct {
 	Num    string
 	LP, RP string
 	Fn     string
-	Chains [][]int // terminal indices
-	Lox    string  `json:",omitempty"`
-	Detail string  `json:",omitempty"`
+	Twin   map[string]cfggen.OpInfo `json:",omitempty"` // second expression rule over the same operators (see cfggen.ExprSpec)
+	TL, TR string                   `json:",omitempty"`
+	Chains [][]int                  // terminal indices
+	Lox    string                   `json:",omitempty"`
+	Detail string                   `json:",omitempty"`
 }
 
 const knownRight = "C05-right-assoc"
@@ -37,6 +39,16 @@ type pc struct {
 	pos     int
 	allLeft bool
 	bad     bool
+	twin    bool // inside TL ... TR: the twin rule's table applies
+}
+
+func (p *pc) op(name string) (cfggen.OpInfo, bool) {
+	if p.twin {
+		o, ok := p.c.Twin[name]
+		return o, ok
+	}
+	o, ok := p.c.Ops[name]
+	return o, ok
 }
 
 func (p *pc) peek() string {
@@ -60,7 +72,18 @@ func (p *pc) atom() string {
 		}
 		p.pos++
 		return "p(" + e + ")"
-	case p.c.Fn != "" && t == p.c.Fn:
+	case p.c.TL != "" && t == p.c.TL && !p.twin:
+		p.pos++
+		p.twin = true
+		e := p.expr(0)
+		p.twin = false
+		if p.peek() != p.c.TR {
+			p.bad = true
+			return ""
+		}
+		p.pos++
+		return "q(" + e + ")"
+	case p.c.Fn != "" && t == p.c.Fn && !p.twin:
 		p.pos++
 		if p.peek() != p.c.LP {
 			p.bad = true
@@ -82,7 +105,7 @@ func (p *pc) atom() string {
 func (p *pc) expr(min int) string {
 	lhs := p.atom()
 	for !p.bad {
-		op, ok := p.c.Ops[p.peek()]
+		op, ok := p.op(p.peek())
 		if !ok || op.Level < min {
 			break
 		}
@@ -121,6 +144,8 @@ func render(c *Case, n *loxb.LNode) string {
 		return fmt.Sprintf("n%d", n.Kids[0].Tok)
 	case len(n.Kids) == 3 && n.Kids[0].Rule != "":
 		return fmt.Sprintf("(%s %s#%d %s)", render(c, n.Kids[0]), n.Kids[1].Sym, n.Kids[1].Tok, render(c, n.Kids[2]))
+	case len(n.Kids) == 3 && c.TL != "" && n.Kids[0].Sym == c.TL:
+		return "q(" + render(c, n.Kids[1]) + ")"
 	case len(n.Kids) == 3:
 		return "p(" + render(c, n.Kids[1]) + ")"
 	case len(n.Kids) == 4:
@@ -140,13 +165,19 @@ func genChain(rt *rapid.T, c *Case, idx map[string]int, depth int) []int {
 	}
 	var atom func(d int) []int
 	var expr func(d int) []int
+	twin := false
 	atom = func(d int) []int {
 		k := rapid.IntRange(0, 9).Draw(rt, "atom")
 		switch {
 		case d > 0 && k == 0:
 			return append(append([]int{idx[c.LP]}, expr(d-1)...), idx[c.RP])
-		case d > 0 && k == 1 && c.Fn != "":
+		case d > 0 && k == 1 && c.Fn != "" && !twin:
 			return append(append([]int{idx[c.Fn], idx[c.LP]}, expr(d-1)...), idx[c.RP])
+		case d > 0 && (k == 2 || k == 3) && c.TL != "" && !twin:
+			twin = true
+			in := expr(d - 1)
+			twin = false
+			return append(append([]int{idx[c.TL]}, in...), idx[c.TR])
 		}
 		return []int{idx[c.Num]}
 	}
@@ -167,7 +198,7 @@ func genChain(rt *rapid.T, c *Case, idx map[string]int, depth int) []int {
 
 func genCase(rt *rapid.T, nChains int) *Case {
 	es := cfggen.GenExpr(rt)
-	c := &Case{G: es.G, Ops: es.Ops, Num: es.Num, LP: es.LP, RP: es.RP, Fn: es.Fn}
+	c := &Case{G: es.G, Ops: es.Ops, Num: es.Num, LP: es.LP, RP: es.RP, Fn: es.Fn, Twin: es.Twin, TL: es.TL, TR: es.TR}
 	idx := map[string]int{}
 	for i, t := range c.G.Toks {
 		idx[t] = i + 2
